@@ -117,33 +117,33 @@ where
   C: Content + 'e,
   D: Doc<Source = C>,
 {
+  let transformed = |name: &str| {
+    // transformed source does not have range, directly return bytes
+    let source = env.get_transformed(name)?;
+    let de_intended = DeindentedExtract::MultiLine(source, 0);
+    Some(indent_lines::<D::Source>(*indent, de_intended))
+  };
+  let single = |name: &str| {
+    let replaced = env.get_match(name)?;
+    Some((replaced.root.doc.get_source(), replaced.range()))
+  };
+  let multiple = |name: &str| {
+    let nodes = env.get_multiple_matches(name);
+    // NOTE: start_byte is not always index range of source's slice.
+    // e.g. start_byte is still byte_offset in utf_16 (napi). start_byte
+    // so we need to call source's get_range method
+    let start = nodes.first()?.inner.start_byte() as usize;
+    let end = nodes[nodes.len() - 1].inner.end_byte() as usize;
+    Some((nodes[0].root.doc.get_source(), start..end))
+  };
+  // a defined variable is substituted whichever sigil the template spells it with
   let (source, range) = match var {
-    MetaVarExtract::Transformed(name) => {
-      // transformed source does not have range, directly return bytes
-      let source = env.get_transformed(name)?;
-      let de_intended = DeindentedExtract::MultiLine(source, 0);
-      let bytes = indent_lines::<D::Source>(*indent, de_intended);
-      return Some(bytes);
-    }
-    MetaVarExtract::Single(name) => {
-      let replaced = env.get_match(name)?;
-      let source = replaced.root.doc.get_source();
-      let range = replaced.range();
-      (source, range)
-    }
-    MetaVarExtract::Multiple(name) => {
-      let nodes = env.get_multiple_matches(name);
-      if nodes.is_empty() {
-        return None;
-      }
-      // NOTE: start_byte is not always index range of source's slice.
-      // e.g. start_byte is still byte_offset in utf_16 (napi). start_byte
-      // so we need to call source's get_range method
-      let start = nodes[0].inner.start_byte() as usize;
-      let end = nodes[nodes.len() - 1].inner.end_byte() as usize;
-      let source = nodes[0].root.doc.get_source();
-      (source, start..end)
-    }
+    MetaVarExtract::Transformed(name) => return transformed(name),
+    MetaVarExtract::Single(name) => single(name).or_else(|| multiple(name))?,
+    MetaVarExtract::Multiple(name) => match multiple(name).or_else(|| single(name)) {
+      Some(found) => found,
+      None => return transformed(name),
+    },
   };
   let extracted = extract_with_deindent(source, range);
   let bytes = indent_lines::<D::Source>(*indent, extracted);
